@@ -67,4 +67,9 @@ CHECKS = {
   "text": "About 2100 generated cases per quick run (5e4 thorough). Exploration level; distributional clauses are statistical at p<1e-9 per case.",
   "note": "Trusted: scipy.stats p-values, scipy RegularGridInterpolator, numpy bincount. LinearInterp asserted for node values that are zero or of order one and u in [1e-6, 1); adaptive bins with >= 8 events per bin.",
  },
+ "C01": {
+  "technique": "metamorphic property-based testing: Hypothesis-generated 3- and 4-body decay structures with spin (grammar with consistent fermion number and allowed partial waves at every vertex), events from an independent numpy generator, common rotation+boost / spatial inversion / identical-particle exchange applied by the harness, density compared before and after",
+  "text": "About 590 structures x 2-4 relations per quick run, 1.4e4 thorough. Exploration level over a continuous group and a combinatorial structure space; edge classes (moving parent, |beta| up to 0.95, half-integer spins, multi-topology interference) are generated deliberately.",
+  "note": "Trusted: numpy Lorentz transformations (vlib/kin.py), the structure grammar (vlib/gen.py). Known finding: identical-particle symmetrisation with spinning final states is frame dependent (recorded, pinned case). Parity clause asserted for all 3-body and parity-conserving 4-body structures.",
+ },
 }
